@@ -65,6 +65,9 @@ func (r *Run) coderOp(name string, spec SchedSpec, fn func()) (viol []sched.Viol
 				if vp, ok := x.(violationPanic); ok {
 					panic(vp)
 				}
+				if ks, ok := x.(knownStop); ok {
+					panic(ks)
+				}
 				pan = fmt.Sprint(x)
 			}
 		}()
